@@ -13,11 +13,71 @@ CHECKS = {
             "Every crash state (within the stated subset/tear bounds) of every short history is recovered by the real open/repair code and must equal one commit point inside [last durable ack, last requested]; recovery crashes are enumerated again.",
             "media model of docs/design.md; histories bounded in length; one torn write per crash; in-memory backend",
             "DESIGN.md 3/C01"),
+    "C02": (True, "seqx", "model_checking",
+            "bounded-exhaustive enumeration of writer/reader interleavings on one thread against per-reader snapshot models",
+            "All interleavings (up to the depth bound) of writer transactions with a pool of read transactions, owned iterators and savepoints; every live reader is re-read completely after every transaction boundary and must equal the model snapshot taken at begin_read, byte for byte.",
+            "sequential interleavings only (real-thread schedules are C03's scenario set); two reader slots; bounded depth",
+            "DESIGN.md 3/C02"),
     "C04": (True, "seqx", "model_checking",
             "bounded-exhaustive enumeration of operation sequences on the real tables against a BTreeMap reference model",
             "All table-operation sequences up to the depth bound from threshold seed trees are executed on the real B-tree code; every return value, final scan, committed dump, page accounting and the independent file decoder must agree with the model.",
             "BTreeMap as the sorted-map semantics; bounded depth; four key/value type pairs",
             "DESIGN.md 3/C04"),
+    "C05": (True, "seqx", "model_checking",
+            "bounded-exhaustive enumeration of transaction bodies ended by abort/drop/poisoned commit, with allocated-set equality",
+            "Every transaction body up to the depth bound (table, multimap, catalog, savepoint, durability operations, panicking predicates) ended by abort, drop or commit; afterwards contents, savepoints and the allocator's allocated page set must equal the state before begin_write.",
+            "storage-error poisoning is enumerated by the fault engine (C08 histories rename/delete/cursor/restore)",
+            "DESIGN.md 3/C05"),
+    "C06": (True, "seqx", "model_checking",
+            "bounded-exhaustive enumeration of transaction/reader/savepoint lifetimes with a page-ownership invariant evaluated at every boundary",
+            "After every transaction boundary of every explored sequence: allocator-allocated = data tree + system tree + DATA_FREED + SYSTEM_FREED + in-memory freed records as a disjoint union; pinned snapshots still read correctly; queues drain to empty once readers and savepoints are gone.",
+            "tree walkers are redb's own (through a read-only hook); the independent decoder cross-checks them under C10/C11",
+            "DESIGN.md 3/C06"),
+    "C07": (True, "seqx+crashx", "model_checking",
+            "bounded-exhaustive enumeration of savepoint histories against a snapshot model, plus crash enumeration of savepoint histories",
+            "All savepoint create/drop/delete/restore(+commit/abort)/reopen sequences up to the depth bound are predicted by a model built from the public documentation; persistent savepoints are also restored after every enumerated crash state.",
+            "two ephemeral slots, at most two persistent savepoints at a time; bounded depth",
+            "DESIGN.md 3/C07"),
+    "C08": (True, "faultx", "fault_enumeration",
+            "exhaustive enumeration of the failing backend-call index x failure mode over short histories, followed by crash-state enumeration of the surviving storage",
+            "For every backend call index of every history and both failure modes the real code must report an error or lose nothing, refuse later writes, serve only commit points, keep the backend contract, and every crash state of the surviving storage must recover to one commit point in the allowed window.",
+            "one failure per run; in-memory backend",
+            "DESIGN.md 3/C08"),
+    "C09": (True, "seqx", "model_checking",
+            "bounded-exhaustive enumeration of multimap operation sequences against BTreeMap<key,BTreeSet<value>>",
+            "All multimap operation sequences up to the depth bound from seeds straddling the inline/subtree threshold; every result, scan, dump, accounting and the decoder's view of inline/subtree records must agree with the model.",
+            "bounded depth; four type combinations",
+            "DESIGN.md 3/C09"),
+    "C10": (True, "seqx+decode", "model_checking",
+            "independent re-implementation of the file format applied to the storage bytes after every durable commit of exhaustively enumerated runs",
+            "The storage bytes after every durable commit of the table, multimap, catalog, cursor and savepoint explorations are decoded by a reader that shares no code with redb and must be a well-formed, fully checksummed forest equal to the model.",
+            "decoder written from docs/design.md; composite/user key types outside its comparator set",
+            "DESIGN.md 3/C10"),
+    "C11": (True, "crashx", "fault_enumeration",
+            "crash/clean-stop enumeration with an allocator-state oracle: allocator set after every open path = independently decoded required set",
+            "For every stop mode (clean close, every crash point incl. after quick-repair commits) and open path, the allocator state must equal exactly the pages the independent decoder finds required; check_integrity must be Ok(true) twice; a write after reopen must leave earlier data intact.",
+            "failed-commit-then-drop is covered by C08's surviving-storage enumeration",
+            "DESIGN.md 3/C11"),
+    "C13": (True, "seqx+crashx", "model_checking",
+            "bounded-exhaustive enumeration of fragmenting histories with compact(), plus crash enumeration inside compaction",
+            "compact() from every explored fragmented state must refuse exactly when readers/savepoints exist, else keep the dump, not grow the file, terminate (repeated calls reach false) and every crash state inside compaction must recover to the unchanged contents.",
+            "bounded depth; backend-call budget as the termination proxy",
+            "DESIGN.md 3/C13"),
+    "C17": (True, "seqx", "model_checking",
+            "bounded-exhaustive enumeration of catalog operation sequences against a name -> (kind, types, contents) map",
+            "All sequences of open/close/rename/delete/list (by name and by handle) up to the depth bound; exact error variants, listings, contents, atomicity with commit/abort, and release of a deleted table's pages.",
+            "names a,b,c; four (kind,type) combinations; bounded depth",
+            "DESIGN.md 3/C17"),
+    "C18": (True, "seqx", "model_checking",
+            "bounded-exhaustive enumeration of cursor operation sequences against a gap index over a sorted vector",
+            "All cursor sequences up to the depth bound including buffered insert runs in both directions; every returned entry, accept/UnorderedKey decision and the table after close must equal the model.",
+            "bounded depth; three/four type pairs",
+            "DESIGN.md 3/C18"),
+    "C20": (True, "contractx", "model_checking",
+            "contract monitor on the storage backend over exhaustively enumerated failing opens, fault indices, read-only opens, deferred closes and operation sequences",
+            "The monitor (bounds, close exactly once, nothing after close, read-only is read-only) is evaluated on every enumerated failing open, every I/O-error index of open, read-only opens, Database drops with live transactions, and every depth-2 operation sequence; it is also active inside every other check.",
+            "truncated files are outside the quantifier; in-memory backend",
+            "DESIGN.md 3/C20"),
 }
 
 NOT_YET = {
@@ -56,8 +116,11 @@ def main():
             "add_only": True,
         },
         "engines": [
-            {"name": "seqx", "path": "harness/src/seqx.rs", "serves_properties": ["C04"], "kind_free_text": "bounded-exhaustive operation-sequence explorer over the real API with a reference model"},
-            {"name": "crashx", "path": "harness/src/crashx.rs", "serves_properties": ["C01"], "kind_free_text": "crash-point / lost-write / torn-write enumerator over recorded storage logs"},
+            {"name": "seqx", "path": "harness/src/seqx.rs", "serves_properties": ["C02", "C04", "C05", "C06", "C07", "C09", "C10", "C13", "C17", "C18"], "kind_free_text": "bounded-exhaustive operation-sequence explorer over the real API with a reference model"},
+            {"name": "crashx", "path": "harness/src/crashx.rs", "serves_properties": ["C01", "C07", "C11", "C13"], "kind_free_text": "crash-point / lost-write / torn-write enumerator over recorded storage logs"},
+            {"name": "faultx", "path": "harness/src/faultx.rs", "serves_properties": ["C08", "C05"], "kind_free_text": "backend-call fault index enumerator"},
+            {"name": "contractx", "path": "harness/src/contractx.rs", "serves_properties": ["C20"], "kind_free_text": "backend contract monitor + failing-open enumerations"},
+            {"name": "decode", "path": "harness/src/decode.rs", "serves_properties": ["C10", "C11"], "kind_free_text": "independent file-format decoder (oracle)"},
         ],
         "checks": checks,
         "not_applicable": na,
